@@ -108,6 +108,7 @@ def spec_desc(draw, depth=3, last=True, want_fixed=False):
         d["n"] = draw(st.integers(1, 8))
     elif kind == "bytes_term":
         d["terms"] = draw(st.sampled_from([[b"\x00"], [b"\n", b";"]]))
+        d["strict"] = draw(st.booleans())       # the end of the window does not stand in for a terminator
     elif kind == "int_enum":
         d["p"] = draw(st.sampled_from(["U8", "U16", "S16", "U32"]))
         d["strict"] = draw(st.booleans())
@@ -287,7 +288,7 @@ def build(d):
     if k == "bytes_greedy":
         return se.BytesGreedy()
     if k == "bytes_term":
-        return se.BytesTerminated(d["terms"])
+        return se.BytesTerminated(d["terms"], eof_terminates=not d.get("strict", False))
     if k == "str":
         return se.Str(PRIMS[d["len"]], null_term=d["null_term"])
     if k == "str_fixed":
